@@ -9,7 +9,7 @@
    stage its input makes it fail -- interleaved with append-mode reopenings. *)
 From Coq Require Import List ZArith Bool.
 From PyrexModel Require Import IOModel.
-From PyrexProofs Require Import IO_writer C11_proofs.
+From PyrexProofs Require Import IO_writer C11_proofs IO_accessors.
 Import ListNotations.
 Open Scope Z_scope.
 
@@ -84,6 +84,16 @@ Theorem total_thrown_eq : forall o d hd ops, records_particles o = true ->
   tv (run o d hd ops) = fold_right Z.add 0 (map a_thrown (accepted o d hd ops)).
 Proof. exact total_thrown_lemma. Qed.
 Print Assumptions total_thrown_eq.
+
+(* the file-level accessor HDF5Reader.get_waveforms(event_id=i, waveform_type=k) returns the k-th
+   waveform row of event i's own block and raises for k at or beyond the event's number of
+   waveform rows (never another event's row); get_waveforms(event_id=i) is the event's block *)
+Theorem reader_waveform_eq_spec : forall st i k, inv st -> avail st W = true -> 0 <= i < n_events st -> 0 <= k ->
+  file_waveform st i k =
+  (if k <? zlen (read_event st i W) then inr (nthZ (read_event st i W) k []) else inl EValue) /\
+  file_waveforms st i = inr (read_event st i W).
+Proof. exact file_waveform_lemma. Qed.
+Print Assumptions reader_waveform_eq_spec.
 
 (* non-vacuity: a history with accepted and rejected adds in two sessions *)
 Theorem example_history : accepted ex_opts 2 true ex_ops = [ex_a1; ex_a2] /\
